@@ -44,8 +44,13 @@ private:
 		template <typename ...Args>
 		auto operator() (Args && ...args) const
 			-> typename std::enable_if<internal_::CanInvoke<Callback, Args ...>::value, void>::type {
-			if(--data->triggerCount <= 0) {
+			// Compare before decrementing: decrementing the minimum int is undefined behaviour
+			// (in practice it wraps to the maximum, and the listener is never removed).
+			if(data->triggerCount <= 1) {
 				data->dispatcher.removeListener(data->event, data->handle);
+			}
+			else {
+				--data->triggerCount;
 			}
 			data->listener(std::forward<Args>(args)...);
 		}
@@ -127,8 +132,13 @@ private:
 		template <typename ...Args>
 		auto operator() (Args && ...args) const
 			-> typename std::enable_if<internal_::CanInvoke<Callback, Args ...>::value, void>::type {
-			if(--data->triggerCount <= 0) {
+			// Compare before decrementing: decrementing the minimum int is undefined behaviour
+			// (in practice it wraps to the maximum, and the listener is never removed).
+			if(data->triggerCount <= 1) {
 				data->callbackList.remove(data->handle);
+			}
+			else {
+				--data->triggerCount;
 			}
 			data->listener(std::forward<Args>(args)...);
 		}
